@@ -80,6 +80,8 @@ type DocConfig struct {
 	// ManyObjects > 0 adds that many small objects of irregular size (Put), so
 	// that the cross-reference data itself becomes large.
 	ManyObjects int
+	// PlainCatalog leaves the optional catalog entries unset.
+	PlainCatalog bool
 	// EndstreamBodies makes every stream body a long text with lines that start with "endstream".
 	EndstreamBodies bool
 	// WithMetadata adds an XMP metadata stream to the catalog (needs version >= 1.4);
@@ -186,6 +188,8 @@ type Doc struct {
 	Custom    map[string]string
 	ID        [][]byte // as reported by the writer
 	MetaTitle string   // title in the XMP metadata stream, if one was written
+	// Cat holds the optional catalog entries that were set (Pages is in Pages).
+	Cat pdf.Catalog
 
 	closeWriter func() error
 }
@@ -662,6 +666,34 @@ func BuildDoc(r *kit.Rand, cfg DocConfig) (*Doc, error) {
 	record(&WObj{Ref: d.Pages, Value: Clone(pagesDict)})
 	meta := w.GetMeta()
 	meta.Catalog.Pages = d.Pages
+	if !cfg.PlainCatalog && r.Bool() {
+		// optional catalog entries, as far as the version allows them
+		cat := meta.Catalog
+		if cfg.Version >= pdf.V1_4 && r.Chance(1, 2) {
+			cat.Version = Versions[r.Intn(int(cfg.Version-pdf.V1_0)+1)] // not later than the header
+			d.Cat.Version = cat.Version
+		}
+		if r.Chance(1, 3) {
+			cat.PageLayout = kit.Pick(r, []pdf.Name{"SinglePage", "TwoColumnLeft", "OneColumn"})
+			d.Cat.PageLayout = cat.PageLayout
+		}
+		if r.Chance(1, 3) {
+			cat.PageMode = kit.Pick(r, []pdf.Name{"UseNone", "UseOutlines", "FullScreen"})
+			d.Cat.PageMode = cat.PageMode
+		}
+		if cfg.Version >= pdf.V1_2 && r.Chance(1, 3) {
+			cat.ViewerPreferences = pdf.Dict{"HideToolbar": pdf.Boolean(true), "Direction": pdf.Name("R2L")}
+			d.Cat.ViewerPreferences = pdf.Dict{"HideToolbar": pdf.Boolean(true), "Direction": pdf.Name("R2L")}
+		}
+		if cfg.Version >= pdf.V1_1 && r.Chance(1, 3) {
+			cat.URI = pdf.Dict{"Base": pdf.String("http://example.com/(base)")}
+			d.Cat.URI = pdf.Dict{"Base": pdf.String("http://example.com/(base)")}
+		}
+		if cfg.Version >= pdf.V1_4 && r.Chance(1, 3) {
+			cat.Lang = language.MustParse(kit.Pick(r, []string{"de-CH", "en", "ja"}))
+			d.Cat.Lang = cat.Lang
+		}
+	}
 	switch r.Intn(3) {
 	case 0:
 		d.Title = "Titel äöü € — " + string(r.BytesFrom([]byte("abc ()\\"), r.Intn(8)))
